@@ -149,8 +149,14 @@ func runCase(w *world, rep *vevid.Report, c Case) {
 			continue
 		}
 		evalQuery(w, rep, c, m, q, metric)
+		for i := 1; i < repeatQueries; i++ {
+			evalQuery(w, rep, c, m, q, metric)
+		}
 	}
 }
+
+// repeatQueries re-issues every query (development aid: schedule-dependent behaviour).
+var repeatQueries = func() int { n := 1; fmt.Sscan(os.Getenv("C11_REPEAT"), &n); return n }()
 
 // traceClause prints the first violations of one clause to stderr (development aid).
 var traceClause = os.Getenv("C11_TRACE")
